@@ -124,7 +124,7 @@ func checkC15(tier, replay string) int {
 			defer func() { <-sem }()
 			p, err := harness.StartProxy(jb.cfg)
 			if err != nil {
-				run.Inconclusive("cannot start memproxy: " + err.Error())
+				startFailure(run, jb.cfg.Name(), err)
 				return
 			}
 			defer func() { p.Stop() }()
